@@ -297,14 +297,21 @@ class ForceMatrix:
                     parameters.add(naming, val)
                     parameters[naming].min = 0
 
-                if kwargs.get("use_std", False):
-                    solution = lmf.minimize(lmfit_cost_std,
-                                            params=parameters,
-                                            args=arguments)
-                else:
-                    solution = lmf.minimize(lmfit_cost,
-                                            params=parameters,
-                                            args=arguments)
+                # lmfit switches numpy's floating point errors off and does not switch them back on
+                # when it raises (e.g. more unknowns than equations, handled by the fallback below):
+                # everything computed afterwards would silently accept inf/nan
+                numpy_error_settings = np.geterr()
+                try:
+                    if kwargs.get("use_std", False):
+                        solution = lmf.minimize(lmfit_cost_std,
+                                                params=parameters,
+                                                args=arguments)
+                    else:
+                        solution = lmf.minimize(lmfit_cost,
+                                                params=parameters,
+                                                args=arguments)
+                finally:
+                    np.seterr(**numpy_error_settings)
                 # TODO: replace Matrix by ndarray in this code
                 # the values for the removed edges are reinserted below, by get_solution_no_discarded
                 xres = np.array([solution.params[name].value for name in solution.params])
